@@ -155,11 +155,20 @@ class CompGen:
 
     def fresh(self, kind):
         rng = self.rng
+        if not hasattr(self, "ns"): self.ns = {"seq": set(), "strand": set(), "struct": set()}
+        mine = {"b": "seq", "s": "seq", "T": "strand", "X": "struct"}.get(kind, "seq")
+        # sequences, strands and structures are separate name spaces: now and then reuse a name of another
+        # kind (a structure and a sequence may not share one: mostly avoided, sometimes tried - must be rejected)
+        if rng.random() < 0.1:
+            others = [k for k in self.ns if k != mine and not ({k, mine} == {"seq", "struct"} and rng.random() < 0.8)]
+            cands = sorted(set().union(*[self.ns[k] for k in others]) - self.ns[mine]) if others else []
+            if cands:
+                n = rng.choice(cands); self.ns[mine].add(n); return n
         for _ in range(50):
             n = rng.choice(NAME_POOL) + (str(rng.randrange(10)) if rng.random() < 0.5 else "")
             if n not in self.used:
-                self.used.add(n); return n
-        n = "%s%d" % (kind, len(self.used)); self.used.add(n); return n
+                self.used.add(n); self.ns[mine].add(n); return n
+        n = "%s%d" % (kind, len(self.used)); self.used.add(n); self.ns[mine].add(n); return n
 
     def seqlen(self, n):
         return self.bases[n] if n in self.bases else self.sups[n]
@@ -648,6 +657,8 @@ def gen_pil_doc(rng, struct_ok=False, conflicts=True):
         n = "s%d" % i
         L = sum(seqs[x[0]] for x in items)
         lines.append(["strand", rng.random() < 0.1, n, items, L]); strands[n] = L
+    if rng.random() < 0.12:         # an empty strand (hand-written documents may have one: "strand e =  : 0")
+        lines.append(["strand", rng.random() < 0.5, "e0", [], 0]); strands["e0"] = 0
     used = set()
     sparse = rng.choice([0.0, 0.03, 0.03, 0.08, 0.2, 0.4])
     sat_biased = rng.random() < 0.65
@@ -663,6 +674,8 @@ def gen_pil_doc(rng, struct_ok=False, conflicts=True):
     ns = rng.choice([1, 1, 2, 3])
     for i in range(ns):
         names = [rng.choice(list(strands)) for _ in range(rng.choice([1, 1, 2, 3]))]
+        if all(strands[x] == 0 for x in names):      # a structure needs at least one nucleotide
+            names.append(rng.choice([x for x in strands if strands[x] > 0]))
         used.update(names)
         if sat_biased:
             flat = [x for nme in names for x in sflat[nme]]
@@ -691,7 +704,11 @@ def gen_pil_doc(rng, struct_ok=False, conflicts=True):
     if struct_ok:
         for n in strands:
             if n not in used:
-                lines.append(["structure", 1, "Y" + n, [n], "." * strands[n]])
+                if strands[n] == 0:       # an empty strand cannot make a structure of its own: it joins the last one
+                    last = [l for l in lines if l[0] == "structure"][-1]
+                    last[3] = last[3] + [n]; last[4] = last[4] + "+"
+                else:
+                    lines.append(["structure", 1, "Y" + n, [n], "." * strands[n]])
     for i in range(rng.choice([0, 0, 1, 2])):
         a = rng.choice(list(seqs))
         same = [x for x in seqs if seqs[x] == seqs[a]]
